@@ -72,7 +72,33 @@ def gen_preserve_nest(rng, widths):
     cands = [p for p, s in F.subtrees(t) if reduced_alone(s)]
     path = () if rng.random() < 0.7 or not cands else rng.choice(cands)
     return {"tree": t, "how": "parsed", "path": list(path), "indent": rng.choice(["", " ", "  ", "\t"]),
-            "align": rng.random() < 0.2, "width": rng.choice(widths + [40, 80, 120, 200]), "decls": None}
+            "align": rng.random() < 0.2, "width": rng.choice(widths + [40, 80, 120, 200]), "decls": None, "raw": root}
+
+
+def library_reduced(run: Run, stream, cases):
+    """the property as it is worded: a document whose whitespace was reduced BY THE LIBRARY (not by the independent
+    oracle) is serialized with format options and read back with reduction (seeded C03-8: the reduction skipping
+    xml:space="default" islands below a preserving element, on which the line-fitting serializer relies)"""
+    from delb import Document, FormatOptions
+
+    for c in cases:
+        if "raw" not in c:
+            continue
+        case = {"raw": c["raw"], "indent": c["indent"], "align": c["align"], "width": c["width"], "library_reduced": True}
+        run.case(stream, case, True)
+        try:
+            doc = Document(trees.to_xml(c["raw"]))
+            doc.reduce_whitespace()
+            keep = [doc.root] + list(doc.root.iterate_descendants())  # noqa: F841
+            before = trees.extract(doc.root)
+            out = doc.root.serialize(format_options=FormatOptions(align_attributes=c["align"], indentation=c["indent"], width=c["width"]))
+            back = reread(out)
+        except Exception as e:  # noqa: BLE001
+            run.violation(stream, case, {"why": f"reduce / serialize / re-read raised {type(e).__name__}: {e}"})
+            continue
+        if trees.canon(trees.merge_text(back)) != trees.canon(trees.merge_text(before)):
+            run.violation(stream, case, {"why": "a document reduced by the library does not come back from its formatted serialization",
+                                         "reduced": before, "output": out, "reread": back})
 
 
 def gen_flip(rng, widths):
@@ -205,7 +231,9 @@ def check(run: Run, lean: dict) -> int:
             run.notes.append(f"known finding {f['key']} no longer reproduces")
     run_cases(run, corpus(), "corpus", ok)
     run_cases(run, [gen_case(run.rng, widths) for _ in range(n)], "generated", ok)
-    run_cases(run, [gen_preserve_nest(run.rng, widths) for _ in range(n // 5)], "preserve-nesting", ok)
+    nests = [gen_preserve_nest(run.rng, widths) for _ in range(n // 5)]
+    run_cases(run, nests, "preserve-nesting", ok)
+    library_reduced(run, "reduced by the library", nests)
     run_cases(run, [c for c in (gen_flip(run.rng, widths) for _ in range(n // 10)) if c], "directive changed between two serializations", ok)
     return run.finish(lean, LEVEL, ASSUME, search=search)
 
